@@ -320,6 +320,11 @@ func (s *Stream) ReceiveFrame(ctx context.Context) ([]byte, error) {
 
 	// Handle zero-length messages
 	if messageLength == 0 {
+		// A protected frame always carries at least its auth tag, so an empty
+		// wire frame on an encrypting stream was not produced by the peer.
+		if s.gcm != nil && s.encrypted {
+			return nil, fmt.Errorf("empty frame on an encrypted stream")
+		}
 		return []byte{}, nil
 	}
 
@@ -375,6 +380,11 @@ func (s *Stream) ReceiveFrameWithEnd(ctx context.Context) ([]byte, byte, error) 
 
 	// Handle zero-length messages
 	if messageLength == 0 {
+		// A protected frame always carries at least its auth tag, so an empty
+		// wire frame on an encrypting stream was not produced by the peer.
+		if s.gcm != nil && s.encrypted {
+			return nil, 0, fmt.Errorf("empty frame on an encrypted stream")
+		}
 		// Track header for AAD digest calculation
 		if s.recvDigest != nil && s.finalRecvDigest == nil {
 			s.recvDigest.Write(header)
